@@ -851,6 +851,49 @@ func c18Registry(c *Ctx) {
 			})
 		}
 		c.Check(ok, "O18.5", fk(nf)+":lazy-config-uses-the-callers-fillConf", nf.Pos(), "the config getter handed to the constructor calls defaultConfig.Get(fillConf) with the caller's fillConf")
+		// ... and that getter is what the constructor receives: every function value that can reach the getMaybeConf
+		// argument of constructor.NewFactory creates and decodes the config anew on each call (exactly one
+		// defaultConfig.Get per call) - a getter that hands out a config decoded earlier makes the products of a component
+		// factory share maps, slices and nested plugins of one configuration
+		nHanded := 0
+		EachInstr(nf, func(in ssa.Instruction) {
+			cc := CC(in)
+			if cc == nil || !cc.IsInvoke() || cc.Method.Name() != "NewFactory" || len(cc.Args) != 2 {
+				return
+			}
+			nHanded++
+			bad := ""
+			for _, r := range Roots(cc.Args[1], false) {
+				if IsNilConst(r) {
+					continue
+				}
+				var body *ssa.Function
+				switch x := r.(type) {
+				case *ssa.MakeClosure:
+					body, _ = x.Fn.(*ssa.Function)
+					if body != nil && body.Synthetic != "" {
+						body = BoundTarget(body)
+					}
+				case *ssa.Function:
+					body = x
+				}
+				if body == nil || len(body.Blocks) == 0 {
+					bad = "a getter that is not a function of the package: " + r.String()
+					continue
+				}
+				iv := PathQuery{Fn: body, Weight: func(i2 ssa.Instruction) (int, int) {
+					if c2 := CC(i2); c2 != nil && c2.StaticCallee() != nil && c2.StaticCallee().Name() == "Get" && RecvTypeName(CalleeObj(c2)) == "defaultConfigContainer" {
+						return 1, 1
+					}
+					return 0, 0
+				}}.Count()
+				if !iv.Is(1, 1) {
+					bad = fmt.Sprintf("the getter %s calls defaultConfig.Get %v times per call (want [1,1])", body.Name(), iv)
+				}
+			}
+			c.Check(bad == "", "O18.2", fk(nf)+":the-handed-getter-decodes-per-call", in.Pos(), "every getter that reaches constructor.NewFactory obtains the config from defaultConfig.Get on each call; "+bad)
+		})
+		c.Floor("O18.2", "constructor.NewFactory calls in Registry.NewFactory", nHanded, 1)
 	}
 }
 
